@@ -114,7 +114,7 @@ Proof.
     intros ? ? ? [K|[]]; discriminate.
   - intros H [Ih [In_ [Il [Bf [Bh [Bn [Bl [Of [Oh [On Ol]]]]]]]]]].
     assert (forall x, bounded nx x -> bounded (S nx) x) by (intros; eapply bounded_mono; eauto).
-    assert (NT : forall f0 e0 now0, ~ In (Took f0 e0 now0) [Accepted (nx, m)]) by (intros ? ? ? [K|[]]; discriminate).
+    assert (NT : forall f0 e0 now0, ~ In (Took f0 e0 now0) [Accepted FromQueue (nx, m)]) by (intros ? ? ? [K|[]]; discriminate).
     unfold ecls in *.
     destruct (classify (mcmd m)) eqn:EC; inversion H; subst; cbn;
       (split; [repeat split; auto; try (apply ord_snoc; auto);
